@@ -267,6 +267,14 @@ class Compiler:
                 return idx
         raise ValueError("context is not on the stack")
 
+    @staticmethod
+    def _syntax_error(node: Node, message: str) -> JSSyntaxError:
+        """A compile-time SyntaxError positioned at the offending node."""
+        loc = getattr(node, "loc", None)
+        if loc is not None:
+            return JSSyntaxError(message, loc.line, loc.column)
+        return JSSyntaxError(message, 1, 1)
+
     def _take_label(self) -> Optional[str]:
         """Label attached to the loop statement being compiled, if any."""
         label = self._pending_label
@@ -640,9 +648,7 @@ class Compiler:
                 self._emit(OpCode.SET_PROP)
                 self._emit(OpCode.POP)  # Pop the result of SET_PROP
             else:
-                raise JSSyntaxError(
-                    f"Unsupported for-in left: {type(node.left).__name__}"
-                )
+                raise self._syntax_error(node, f"Unsupported for-in left: {type(node.left).__name__}")
 
             self._compile_statement(node.body)
 
@@ -680,9 +686,7 @@ class Compiler:
                 self._emit_store_variable(node.left.name)
                 self._emit(OpCode.POP)
             else:
-                raise JSSyntaxError(
-                    f"Unsupported for-of left: {type(node.left).__name__}"
-                )
+                raise self._syntax_error(node, f"Unsupported for-of left: {type(node.left).__name__}")
 
             self._compile_statement(node.body)
 
@@ -701,7 +705,7 @@ class Compiler:
 
         elif isinstance(node, BreakStatement):
             if not self.loop_stack:
-                raise JSSyntaxError("'break' outside of loop")
+                raise self._syntax_error(node, "'break' outside of loop")
 
             # Find the right loop context (labeled or innermost loop/switch)
             target_label = node.label.name if node.label else None
@@ -724,9 +728,9 @@ class Compiler:
 
             if ctx is None:
                 if target_label:
-                    raise JSSyntaxError(f"label '{target_label}' not found")
+                    raise self._syntax_error(node, f"label '{target_label}' not found")
                 else:
-                    raise JSSyntaxError("'break' outside of loop")
+                    raise self._syntax_error(node, "'break' outside of loop")
 
             # Leave every statement between here and the target
             self._emit_exit_code(self._context_index(ctx))
@@ -736,7 +740,7 @@ class Compiler:
 
         elif isinstance(node, ContinueStatement):
             if not self.loop_stack:
-                raise JSSyntaxError("'continue' outside of loop")
+                raise self._syntax_error(node, "'continue' outside of loop")
 
             # Find the right loop context (labeled or innermost loop, not switch)
             target_label = node.label.name if node.label else None
@@ -751,8 +755,8 @@ class Compiler:
 
             if ctx is None:
                 if target_label is None:
-                    raise JSSyntaxError("'continue' outside of loop")
-                raise JSSyntaxError(f"label '{target_label}' not found")
+                    raise self._syntax_error(node, "'continue' outside of loop")
+                raise self._syntax_error(node, f"label '{target_label}' not found")
 
             # Leave every statement between here and the target loop
             self._emit_exit_code(self._context_index(ctx))
@@ -934,9 +938,7 @@ class Compiler:
             self.loop_stack.pop()
 
         else:
-            raise JSSyntaxError(
-                f"Cannot compile statement: {type(node).__name__}"
-            )
+            raise self._syntax_error(node, f"Cannot compile statement: {type(node).__name__}")
 
     def _compile_statement_for_value(self, node: Node) -> None:
         """Compile a statement leaving its completion value on the stack.
@@ -1365,7 +1367,7 @@ class Compiler:
                 if node.operator in op_map:
                     self._emit(op_map[node.operator])
                 else:
-                    raise JSSyntaxError(f"Unary operator: {node.operator}")
+                    raise self._syntax_error(node, f"Unary operator: {node.operator}")
 
         elif isinstance(node, UpdateExpression):
             # ++x or x++
@@ -1473,7 +1475,7 @@ class Compiler:
                     self._emit(OpCode.SET_PROP)  # [old_value, new_value]
                     self._emit(OpCode.POP)  # [old_value]
             else:
-                raise JSSyntaxError("Update expression on non-identifier")
+                raise self._syntax_error(node, "Update expression on non-identifier")
 
         elif isinstance(node, BinaryExpression):
             self._compile_expression(node.left)
@@ -1505,7 +1507,7 @@ class Compiler:
             if node.operator in op_map:
                 self._emit(op_map[node.operator])
             else:
-                raise JSSyntaxError(f"Binary operator: {node.operator}")
+                raise self._syntax_error(node, f"Binary operator: {node.operator}")
 
         elif isinstance(node, LogicalExpression):
             self._compile_expression(node.left)
@@ -1677,6 +1679,4 @@ class Compiler:
             self._emit(OpCode.MAKE_CLOSURE, func_idx)
 
         else:
-            raise JSSyntaxError(
-                f"Cannot compile expression: {type(node).__name__}"
-            )
+            raise self._syntax_error(node, f"Cannot compile expression: {type(node).__name__}")
